@@ -152,3 +152,6 @@ func Ops() []Op                { return nil }
 func ClearOps()                {}
 func IsFresh(mtime int64) bool { return mtime >= resetTime }
 func Native() bool             { return true }
+
+// SnapshotAll lists every node below the common base of all roots.
+func SnapshotAll() []Entry { return Snapshot(base) }
